@@ -54,6 +54,16 @@ func midnightGap(t time.Time, y, m, d int64) []any {
 	return []any{}
 }
 
+// zoneOffsetAt: the offset of the named zone at the instant of t according to the zone database (seconds).
+func zoneOffsetAt(name string, t time.Time) int64 {
+	loc, err := time.LoadLocation(name)
+	if err != nil {
+		return 99999999
+	}
+	_, off := t.In(loc).Zone()
+	return int64(off)
+}
+
 // localOffset: the offset of the process-local zone (time.Local as the host set it) at the instant of t, in seconds.
 func localOffset(t time.Time) int64 {
 	_, off := t.In(time.Local).Zone()
@@ -219,7 +229,7 @@ func recordTime(args []string) int {
 			return fail(err)
 		}
 		rt, _ := v.(time.Time)
-		evs = append(evs, mk("usetz", map[string]any{"t": proj.TimeValue(t), "res": proj.TimeValue(rt), "args": z}))
+		evs = append(evs, mk("usetz", map[string]any{"t": proj.TimeValue(t), "res": proj.TimeValue(rt), "zoff": zoneOffsetAt(z, t), "args": z}))
 		ev, err := fieldsEv(rt)
 		if err != nil {
 			return fail(err)
@@ -247,11 +257,35 @@ func recordTime(args []string) int {
 							return fail(err)
 						}
 						rt, _ := v.(time.Time)
-						evs = append(evs, mk("usetz", map[string]any{"t": proj.TimeValue(t), "res": proj.TimeValue(rt), "args": z}))
+						evs = append(evs, mk("usetz", map[string]any{"t": proj.TimeValue(t), "res": proj.TimeValue(rt), "zoff": zoneOffsetAt(z, t), "args": z}))
 					}
 				}
 				poff = off
 			}
+		}
+	}
+	// a time that already sits in a zone whose *abbreviation* spells another zone's name (Africa/Algiers is "CET" all
+	// year, London "GMT" in winter): the result is in the zone that was asked for ("zoff": that zone's offset at the
+	// instant, from the zone database); an abbreviation that names no zone ("CST", "JST") is unknown
+	for _, c := range [][2]string{{"Africa/Algiers", "CET"}, {"Europe/London", "GMT"}, {"Europe/Lisbon", "WET"}, {"Asia/Shanghai", "CST"}, {"Asia/Tokyo", "JST"}, {"Africa/Algiers", "Europe/Paris"}} {
+		for _, base := range []time.Time{time.Date(2023, 7, 10, 12, 30, 0, 0, time.UTC), time.Date(2023, 1, 10, 12, 30, 0, 0, time.UTC)} {
+			v1, err := evalWith("useTimezone(t, z)", map[string]interface{}{"t": base, "z": c[0]})
+			if err != nil {
+				return fail(err)
+			}
+			t1, _ := v1.(time.Time)
+			v2, err2 := evalWith("useTimezone(t, z)", map[string]interface{}{"t": t1, "z": c[1]})
+			loc, lerr := time.LoadLocation(c[1])
+			if lerr != nil {
+				evs = append(evs, mk("badtz", map[string]any{"err": err2 != nil, "args": c[1] + " asked of a time in " + c[0]}))
+				continue
+			}
+			if err2 != nil {
+				return fail(err2)
+			}
+			t2, _ := v2.(time.Time)
+			_, zoff := t1.In(loc).Zone()
+			evs = append(evs, mk("usetz", map[string]any{"t": proj.TimeValue(t1), "res": proj.TimeValue(t2), "zoff": int64(zoff), "args": c[1] + " asked of a time in " + c[0]}))
 		}
 	}
 	// an unknown zone stays unknown however often it is asked for, also right after a known one
